@@ -99,7 +99,7 @@ type verdict struct {
 	Runs        int // thriftgo processes started
 	Files       int // files in the (first) output tree
 	EmbedsOut   bool
-	MaskedDescs int // descriptor literals that could not be decoded and were left out of the comparison
+	MaskedDescs int    // descriptor literals that could not be decoded and were left out of the comparison
 	Millis      int64  // time spent in thriftgo processes
 	Reject      string // last line of the output of a rejected program
 }
